@@ -58,6 +58,21 @@ def run(tier, seed):
                         sample_geos=(5,) if quick else (5, 6),
                         n_sample=100 if quick else 300, pars=pars,
                         reps=1 if quick else 4, n_default=12, salt=2)
+  # reuse family: the data object already served an unconstrained search
+  # object; this one admits fewer geos (share range / n_geos_max / budget)
+  # and constrains share and volume ratio, so stale per-index caches in the
+  # data object show up as constraint violations of the returned designs
+  rrng = np.random.default_rng([int(seed), 22])
+  for n in ((4, 5) if quick else (4, 5, 6)):
+    for panel in sl.panel_specs(n, rrng, 6 if quick else 12):
+      for par in ({'treatment_share_range': [0.05, 0.3],
+                   'volume_ratio_tolerance': 0.25},
+                  {'n_geos_max': n - 1, 'volume_ratio_tolerance': 0.25,
+                   'treatment_share_range': [0.1, 0.6]},
+                  {'budget_mult': [0.0, 1.2], 'volume_ratio_tolerance': 0.5,
+                   'treatment_share_range': [0.05, 0.5]}):
+        specs.append({'panel': panel, 'elig': None, 'reuse': True,
+                      'par': dict(par, n_test=7, iroas=1.0, n_designs=50)})
   res = base.MonitorResult(
       'C02: eligibility multisets over <=4 geos, seeded tables for 5%s geos '
       'and no-eligibility cases x seeded panels x parameter objects (every '
@@ -67,7 +82,10 @@ def run(tier, seed):
       'median per-geo required impact); both searches; each returned design '
       're-evaluated from the raw frame (share reading: all geos or admitted '
       'geos, either accepted). non-trivial = at least one constraint given '
-      'and at least one design returned; distinct = (case spec, search)' %
+      'and at least one design returned; one case in three (and a dedicated '
+      'family admitting fewer geos under share / volume constraints) reuses a '
+      'data object that already served an unconstrained search object; '
+      'distinct = (case spec, search)' %
       ('' if quick else '-6'))
   res.bound = 'n_geos <= %d, %d cases x 2 searches' % (5 if quick else 6,
                                                        len(specs))
